@@ -201,9 +201,12 @@ def reset_events(b):
             if P is None:
                 continue
             f = t["f"] or ""
-            if TXS + "queued_commands" in P.fields and (re.search(r"VecDeque::<.*>::clear$", f) or re.search(r"^std::mem::(take|replace)::<", f)):
+            # emptying a container: clear(), mem::take/replace, drain() (the Drain guard removes
+            # everything even if it is not consumed), truncate(0), split_off(0)
+            EMPTY = r"::(clear|drain)(::<.*>)?$"
+            if TXS + "queued_commands" in P.fields and (re.search(r"(VecDeque|Vec)::<.*>" + EMPTY, f) or re.search(r"^std::mem::(take|replace)::<", f)):
                 qclear.add(i)
-            if TXS + "watched_keys" in P.fields and (re.search(r"HashMap::<.*>::clear$", f) or re.search(r"^std::mem::(take|replace)::<", f)):
+            if TXS + "watched_keys" in P.fields and (re.search(r"(HashMap|HashSet|BTreeMap)::<.*>" + EMPTY, f) or re.search(r"^std::mem::(take|replace)::<", f)):
                 wclear.add(i)
     return store, qclear, wclear, abort
 
@@ -423,6 +426,14 @@ def rule_w2(ctx, R):
     cmp_ = [i for i, bb in enumerate(b.bbs) for st in bb["s"] if st["k"] == "=" and st["r"]["k"] == "bin" and st["r"]["op"] in ("Gt", "Lt", "Ne", "Ge", "Le")
             and 4 in (prov.operand_origins(b, st["r"]["a"]).params() | prov.operand_origins(b, st["r"]["b"]).params())]
     exp = [i for i, t in b.calls() if re.search(r"::is_expired$", callee(t)) and shared.from_dataset(b, t["a"][0])]
+    if not exp:
+        # `data.get(key).map_or(false, |v| v.is_expired())`: the test sits in an adaptor closure
+        # whose subject is the stored value
+        for i, t in b.calls():
+            for c in t.get("clos") or []:
+                cb = ctx.prog.bodies.get(c)
+                if cb is not None and any(re.search(r"::is_expired$", callee(tt)) for _, tt in cb.calls()) and t["a"] and not op_is_const(t["a"][0]) and shared.from_dataset(b, t["a"][0]):
+                    exp.append(i)
     cnt = [i for i, t in b.calls() if callee(t) in ("storage::engine::ShardWatchTracker::get_key_counter",)]
     R.inst(b.fn, "stamp-comparison", {"comparisons_with_baseline": len(cmp_), "reads_key_counter": len(cnt)})
     R.inst(b.fn, "expiry-clause", {"is_expired_on_stored_value": len(exp)})
@@ -433,7 +444,7 @@ def rule_w2(ctx, R):
     # both must be able to produce `true`: the true result is reachable from each test's positive edge
     rw = ctx.prog.need("storage::engine::ShardWatchTracker::register_watch")
     inc = [i for i, t in rw.calls() if re.search(r"atomic::Atomic.*::fetch_add$", t["def"] or "")]
-    rd = [i for i, t in rw.calls() if re.search(r"HashMap::<.*>::get", t["f"] or "")]
+    rd = [i for i, t in rw.calls() if re.search(r"HashMap::<.*>::get", t["f"] or "") or callee(t) == "storage::engine::ShardWatchTracker::get_key_counter"]
     ok = bool(inc) and bool(rd) and all(cfg.dominates(rw, inc[0], x) for x in rd)
     R.inst(rw.fn, "watchers-incremented-before-stamp-read", {"ok": ok})
     if not ok:
